@@ -1502,6 +1502,36 @@ func (x *e2Ctx) dstOf(v ssa.Value) (string, string) {
 						}
 						addDst(tgt, append(append([]string{}, it.xs...), "dec("+typeTagOfRecv(sf, cc)+")"))
 					default:
+						// a module function that stores the value handed to it (o.Add(opt), list.push(v)): where the callee
+						// puts its parameter, in the caller's terms
+						if inModule(sf) && sf.Blocks != nil && x.depth < 3 && len(sf.Blocks) <= 4 {
+							for ai, a := range cc.Args {
+								if a != it.v || ai >= len(sf.Params) {
+									continue
+								}
+								sub := &e2Ctx{c: x.c, fn: sf, lex: map[ssa.Value]bool{}, enc: false, subst: map[string]string{}, visited: map[*ssa.BasicBlock]int{}, depth: x.depth + 1}
+								for j, p := range sf.Params {
+									if j < len(cc.Args) {
+										sub.subst[x.c.Sx().Of(p).String()] = x.apply(x.pathOf(cc.Args[j], 0))
+									}
+								}
+								if dcal, xcal := sub.dstOf(sf.Params[ai]); dcal != "_" && !strings.HasPrefix(dcal, "return") {
+									var r []string
+									for i := len(it.xs) - 1; i >= 0; i-- {
+										r = append(r, it.xs[i])
+									}
+									xf := xformClass(r)
+									if xcal != "" {
+										if xf != "" {
+											xf += "&"
+										}
+										xf += xcal
+									}
+									dsts = append(dsts, dcal)
+									xfs = append(xfs, xf)
+								}
+							}
+						}
 						if inModule(sf) && sf.Signature.Results().Len() >= 1 {
 							if _, isTuple := t.Type().(*types.Tuple); !isTuple && !isErrorType(t.Type()) {
 								follow(item{t, append(append([]string{}, it.xs...), "call:"+sf.Name())}, d+1)
